@@ -661,6 +661,36 @@ fn main() {
     // 1b. histories on one Processor with the tree changing between requests
     for _ in 0..(if args.thorough { 4000 } else { 300 }) { history(&mut rec, &mut scratch, &mut rng); }
 
+    // 1c. long names made of multi-byte characters (existing files and missing ones): the path the endpoint resolves,
+    //     compares and echoes is then longer than 255 / 256 bytes, and with 0-3 leading ASCII bytes every byte offset
+    //     near such a length falls inside a character for some name
+    {
+        let mut e = vec![Entry::Dir(v("/upd")), Entry::Dir(v("/out")), Entry::File(v("/out/secret"))];
+        let mut names: Vec<String> = vec![];
+        for lead in 0..4 {
+            for (unit, count) in [("\u{e9}", 120usize), ("\u{20ac}", 80), ("\u{1f600}", 60), ("\u{e9}", 60)] {
+                let n = format!("{}{}.m", "a".repeat(lead), unit.repeat(count));
+                if n.len() <= 255 { names.push(n); }
+            }
+        }
+        for n in &names { e.push(Entry::File(v(&format!("/upd/{n}")))); }
+        let ll = Layout(e);
+        for n in &names {
+            for style in [0u64, 1] {
+                let q = format!("file={}", encode(n.as_bytes(), style));
+                run_case(&mut rec, &mut scratch, &ll, &mk_case("GET", "/mrt/u1/queue", Some(&q), upd0(Some("/upd")), true, Reply::Ok));
+                // the same name with its last character changed: a long name that does not exist
+                let mut missing = n.clone(); missing.truncate(n.len() - 2); missing.push_str("x.m");
+                let q = format!("file={}", encode(missing.as_bytes(), style));
+                run_case(&mut rec, &mut scratch, &ll, &mk_case("GET", "/mrt/u1/queue", Some(&q), upd0(Some("/upd")), true, Reply::Ok));
+                // and reaching outside through a long name
+                let q = format!("file=../out/{}", encode(n.as_bytes(), style));
+                run_case(&mut rec, &mut scratch, &ll, &mk_case("GET", "/mrt/u1/queue", Some(&q), upd0(Some("/upd")), true, Reply::Ok));
+            }
+            rec.bump("long-multibyte-names");
+        }
+    }
+
     // 2. encodings x shapes
     for f in FILES0 {
         for style in 0..6 {
